@@ -1,6 +1,6 @@
 (* C13 - declarations reach the generated signature unchanged.  Theorems only. *)
 From Coq Require Import Lia.
-From Ructe Require Import Nom NomFacts Utf8 Spacelike Expression TemplateExpr Template Emit ParserProofs EmitProofs.
+From Ructe Require Import Nom NomFacts Utf8 Spacelike Expression TemplateExpr Template Emit Compile ParserProofs EmitProofs RoundTrip ExprComplete.
 Local Open Scope list_scope.
 
 Section C13.
@@ -40,6 +40,43 @@ Theorem use_line_is_source_slice : forall i l r, use_line i = Ok l r ->
   exists ws, i = b "@" ++ l ++ b ";" ++ ws ++ r /\ utf8_valid l = true /\ l <> [] /\ Forall (fun c => mem c (b ";()") = false) l.
 Proof. exact use_line_slice. Qed.
 
+(* completeness for a whole file: a text made of use lines, a declaration and a derivable body
+   (the declarative grammar of Proofs/RoundTrip.v) is compiled -- by the real pipeline, at the fuel
+   Compile.v uses -- into the signature of [signature_shape] over exactly those use lines and
+   parameters: every `@use X;` becomes `use X;`, the parameters appear in declared order, verbatim
+   unless their type is exactly Content *)
+Theorem declared_header_reaches_the_code : forall (uni_esc : N -> bool) (name src : bytes) d t,
+  let f := fuel_for src in
+  PT (expr_gram f) f (ty_gram f) d t src -> d < f ->
+  compile uni_esc name src = Accepted (write_rust uni_esc t name).
+Proof.
+  intros ue name src d t f H Hd. unfold compile, parse_template. fold f.
+  rewrite (template_complete (expr_gram f) (good_expr_gram f) f (ty_gram f) d t src f (texpr_gram (expr_gram f) f f TE) (fun j => eq_refl) H Hd).
+  reflexivity.
+Qed.
+
+Example a_whole_template :
+  let src := b "@* header *@" ++ [10%N] ++ b "@use super::base_html;" ++ [10%N] ++ b "@use crate::models::*;" ++ [10%N; 10%N] ++
+             b "@<'a>(title: &'a str, items: &[(u8, &str,)], body:Content)" ++ [10%N] ++ b "<h1>@title</h1>@for (n, s) in items {<li>@n: @s</li>}@:body()" ++ [10%N] in
+  let f := fuel_for src in
+  PT (expr_gram f) f (ty_gram f) 4
+     {| preamble := [b "use super::base_html"; b "use crate::models::*"]; type_args := b "'a";
+        args := [b "title: &'a str"; b "items: &[(u8, &str,)]"; b "body:Content"];
+        body := [TText (b "<h1>"); TExpr (b "title"); TText (b "</h1>");
+                 TFor (b "(n, s)") (b "items") [TText (b "<li>"); TExpr (b "n"); TText (b ": "); TExpr (b "s"); TText (b "</li>")];
+                 TCall (b "body") []; TText [10%N]] |} src.
+Proof.
+  intros src f. 
+  match goal with |- PT _ _ _ _ ?t ?s => let s' := eval vm_compute in s in let f' := eval vm_compute in f in change s with s'; change f with f' end.
+  eapply (PT_mk _ _ _ 4 _ (Some (b "'a"))).
+  { lex. }
+  { cbn [steps]. eexists. split; [lex|]. split; [xlen|]. eexists. split; [lex|]. split; [xlen|]. reflexivity. }
+  { eexists. lex. }
+  { lex. }
+  { lex. }
+  match goal with |- PIs _ _ _ ?a ?s _ => concrete a end. pi_items.
+Qed.
+
 (* the substring replacement of the pinned commit did both things wrong *)
 Fixpoint legacy_replace (fuel : nat) (pat to s : bytes) : bytes :=
   match fuel with O => s | S f =>
@@ -67,4 +104,6 @@ Redirect "assumptions/C13.signature_shape" Print Assumptions signature_shape.
 Redirect "assumptions/C13.param_verbatim_or_content" Print Assumptions param_verbatim_or_content.
 Redirect "assumptions/C13.formal_argument_is_source_slice" Print Assumptions formal_argument_is_source_slice.
 Redirect "assumptions/C13.use_line_is_source_slice" Print Assumptions use_line_is_source_slice.
+Redirect "assumptions/C13.declared_header_reaches_the_code" Print Assumptions declared_header_reaches_the_code.
+Redirect "assumptions/C13.a_whole_template" Print Assumptions a_whole_template.
 Redirect "assumptions/C13.legacy_content_rewrite_refuted" Print Assumptions legacy_content_rewrite_refuted.
